@@ -200,6 +200,16 @@ pub fn build_universe(tier: Tier) -> UniverseWat {
     for c in &comps {
         g.item("component", c, false);
     }
+    // items that SHARE type identifiers: one instance type referenced by an instance import and
+    // inside a component import (contravariant position) - memo keys can then collide
+    writeln!(g.wat, "  (type $shw (instance (export \"x\" (func)) (export \"y\" (func))))").unwrap();
+    writeln!(g.wat, "  (type $shn (instance (export \"x\" (func))))").unwrap();
+    g.item("shared-instance", "(instance (type $shw))", false);
+    g.item("shared-instance", "(instance (type $shn))", false);
+    g.item("shared-component", "(component (import \"x\" (instance (type $shw))) (export \"y\" (func)))", false);
+    g.item("shared-component", "(component (import \"x\" (instance (type $shn))) (export \"y\" (func)))", false);
+    g.item("shared-component", "(component (import \"x\" (func)) (export \"y\" (instance (type $shw))))", false);
+    g.item("shared-component", "(component (import \"x\" (func)) (export \"y\" (instance (type $shn))))", false);
     // core modules
     let mods: Vec<&str> = vec![
         "(core module)",
@@ -460,6 +470,12 @@ pub fn run(args: &[String]) {
         pick("component", 11),
         pick("func", 0),
         pick("func", 1),
+        pick("shared-instance", 0),
+        pick("shared-instance", 1),
+        pick("shared-component", 0),
+        pick("shared-component", 1),
+        pick("shared-component", 2),
+        pick("shared-component", 3),
     ];
     let family: Vec<(usize, usize)> = {
         let mut f = Vec::new();
@@ -471,9 +487,12 @@ pub fn run(args: &[String]) {
             }
         }
         // keep a fixed-size family that mixes accepted and rejected pairs
-        let mut acc: Vec<_> = f.iter().copied().filter(|p| accepted.contains(p)).take(6).collect();
-        let rej: Vec<_> = f.iter().copied().filter(|p| !accepted.contains(p)).take(6).collect();
+        let shared = |p: &(usize, usize)| u.items[p.0].class.starts_with("shared");
+        let mut acc: Vec<_> = f.iter().copied().filter(|p| !shared(p) && accepted.contains(p)).take(4).collect();
+        let rej: Vec<_> = f.iter().copied().filter(|p| !shared(p) && !accepted.contains(p)).take(4).collect();
         acc.extend(rej);
+        // every ordered pair of the items that share type identifiers
+        acc.extend(f.iter().copied().filter(shared));
         acc
     };
     let memo_depth = tier.pick(3, 4);
